@@ -332,7 +332,11 @@ func c06Check(c c06Case) vfResult {
 	if writers > 0 && readers > 0 {
 		r.Labels = append(r.Labels, "writer-overlaps-reader")
 	}
-	r.Labels = append(r.Labels, fmt.Sprintf("goroutines-%d", len(c.Progs)))
+	if len(c.Progs) > 8 {
+		r.Labels = append(r.Labels, "goroutines-64+")
+	} else {
+		r.Labels = append(r.Labels, fmt.Sprintf("goroutines-%d", len(c.Progs)))
+	}
 	cb, _ := ejson.Marshal(c)
 	r.Hash = vfHash(cb)
 	return r
@@ -413,10 +417,14 @@ func c06Gen(t *rapid.T) c06Case {
 		names = append(names, e.Aliases...)
 	}
 	ng := rapid.IntRange(2, 8).Draw(t, "ng")
+	maxOps := 8
+	if rapid.IntRange(0, 49).Draw(t, "crowd") == 0 {
+		ng, maxOps = rapid.IntRange(64, 160).Draw(t, "crowdsize"), 3 // many goroutines, short programs
+	}
 	extended := map[int]bool{}
 	for g := 0; g < ng; g++ {
 		var prog []c06Op
-		for i, n := 0, rapid.IntRange(1, 8).Draw(t, "nops"); i < n; i++ {
+		for i, n := 0, rapid.IntRange(1, maxOps).Draw(t, "nops"); i < n; i++ {
 			switch rapid.IntRange(0, 9).Draw(t, "ok") {
 			case 0, 1, 2:
 				prog = append(prog, c06Op{Op: "detect", In: rapid.IntRange(0, nin-1).Draw(t, "in")})
